@@ -51,7 +51,9 @@ def tokenize(source: str):
 def literal(scanner: Scanner, ctx: dict):
     "Consumes literal from given scanner"
     start = scanner.pos
-    expression_start = ctx['expression']
+    # Text starts at depth 1: a literal resumed inside nested braces (after `$`,
+    # a field...) still has to take the inner `}` as text
+    expression_start = min(ctx['expression'], 1)
     value = []
 
     while not scanner.eof():
